@@ -7,7 +7,8 @@ from collections import Counter
 from .pymodel import Program
 from .cymodel import CyProgram, X, pp, walk, rename_x, canonical_mapping, names_in
 from .kernels import report_sites
-from .idioms import diagonal_clear_target, symmetrises
+from .idioms import diagonal_clear_target, symmetrises, inline_locals, strip_int
+from .loopir import canon_loopvars
 from .report import Run, AnalysisError
 
 CORE = "pyunicorn.core._ext.numerics"
@@ -232,26 +233,40 @@ def w1_cross(run: Run, cy: CyProgram):
                 f"of the two links (updates: {srcs})")
 
 
-def _exact_count(body, arr):
-    """`for _ in range(number_cross_links): while True: draw; if <cell unset>:
-    break; <cell> = 1` over the statements `body`."""
-    loops = [s for s in body if s.k == "for"
-             and pp(s.a[1]).replace(" ", "") == "range(number_cross_links)"]
+def _exact_count(body, params):
+    """`for _ in range(<requested count>): while True: draw; if <cell unset>:
+    break; <cell> = 1` over the statements `body`: the loop that sets the links
+    is recognised by its shape (rejection loop + one store of 1 into a 2-index
+    array), the requested count must be a parameter of the function."""
+    def stores_of_one(stmts):
+        out = []
+        for st in stmts:
+            if st.k == "assign" and pp(st.a[1]) == "1":
+                for t in st.a[0]:
+                    if t.k == "index" and len(t.a[1]) == 2 and t.a[0].k == "name":
+                        out.append((t.a[0].a[0], (pp(t.a[1][0]), pp(t.a[1][1]))))
+        return out
+    loops = [s for s in body if s.k == "for" and any(x.k == "while" for x in s.a[2])
+             and stores_of_one(s.a[2])]
     if len(loops) != 1:
+        return False
+    rng = loops[0].a[1]
+    if not (rng.k == "call" and pp(rng.a[0]) == "range" and len(rng.a[1]) == 1
+            and rng.a[1][0].k == "name" and rng.a[1][0].a[0] in params):
         return False
     lb = loops[0].a[2]
     wl = [s for s in lb if s.k == "while"]
-    st = _matrix_stores(lb, arr)
-    if len(wl) != 1 or len(st) != 1 or st[0][0] != "1" or len(st[0][1]) != 1:
+    st = stores_of_one(lb)
+    if len(wl) != 1 or len(st) != 1:
         return False
-    cell = st[0][1][0]
+    arr, cell = st[0]
     brk = [c for s in walk(wl[0].a[1]) if isinstance(s, X) and s.k == "if"
            for c, b in s.a[0] if any(x.k == "break" for x in b)]
     if len(brk) != 1:
         return False
     g = pp(brk[0]).replace(" ", "")
     c = f"{arr}[{cell[0]},{cell[1]}]"
-    return g in (f"(not{c})", f"({c}==0)", f"(not({c}==1))", f"({c}!=1)")
+    return g in (f"(not{c})", f"({c}==0)", f"(not({c}==1))", f"({c}!=1)", f"(0=={c})")
 
 
 def w2(run: Run, prog: Program, cy: CyProgram):
@@ -259,7 +274,7 @@ def w2(run: Run, prog: Program, cy: CyProgram):
     f = cy.func(CORE, "_randomlySetCrossLinks")
     if f is None:
         raise AnalysisError("_randomlySetCrossLinks vanished")
-    ok = _exact_count(f.body, "cross_A")
+    ok = _exact_count(f.body, {n for n, t in f.args})
     run.oblige("W2", "_randomlySetCrossLinks:exact-count", ok, sample={"where": f.where})
     if not ok:
         run.add("W2", "_randomlySetCrossLinks/exact-count", f.where,
@@ -270,7 +285,7 @@ def w2(run: Run, prog: Program, cy: CyProgram):
     m = inw.methods.get("RandomlySetCrossLinks_sparse")
     if m is None:
         raise AnalysisError("RandomlySetCrossLinks_sparse vanished")
-    ok = _exact_count(py_stmts(m.node.body), "cross_A_new")
+    ok = _exact_count(py_stmts(m.node.body), set(m.params))
     run.oblige("W2", "RandomlySetCrossLinks_sparse:exact-count", ok,
                sample={"where": m.where})
     if not ok:
@@ -285,22 +300,26 @@ def w3(run: Run, cy: CyProgram):
         raise AnalysisError("overwriteAdjacency vanished")
     binds = {}
     stores = []
-    for s in walk(f.body):
+    # parameters by position: (A, cross_A, nodes1, nodes2, m, n)
+    if len(f.args) < 4:
+        raise AnalysisError(f"{f.where}: overwriteAdjacency signature changed")
+    P = [n for n, t in f.args]
+    full, cross, l1, l2 = P[0], P[1], P[2], P[3]
+    body = canon_loopvars(f.body)
+    for s in walk(body):
         if isinstance(s, X) and s.k == "assign":
             if len(s.a[0]) == 1 and s.a[0][0].k == "tuple" and s.a[1].k == "tuple":
                 for a, b in zip(s.a[0][0].a[0], s.a[1].a[0]):
                     binds[pp(a)] = pp(b)
             elif len(s.a[0]) == 1 and s.a[0][0].k == "name":
                 binds[pp(s.a[0][0])] = pp(s.a[1])
-            tg = [t for t in s.a[0] if t.k == "index" and pp(t.a[0]) == "A"]
-            if tg:
-                stores.append((s, tg))
-    ok = len(stores) == 1
+    from .loopir import symmetric_store_report
+    rep = symmetric_store_report(body, {full})
+    ok = len(rep) == 2 and all(r[4] for r in rep)
     if ok:
-        s, tg = stores[0]
-        idx = [tuple(binds.get(pp(i), pp(i)) for i in t.a[1]) for t in tg]
-        ok = sorted(idx) == sorted([("nodes1[i]", "nodes2[j]"), ("nodes2[j]", "nodes1[i]")]) \
-            and pp(s.a[1]) == "cross_A[i, j]"
+        idx = [tuple(binds.get(i, i) for i in r[1]) for r in rep]
+        ok = sorted(idx) == sorted([(f"{l1}[i]", f"{l2}[j]"), (f"{l2}[j]", f"{l1}[i]")]) \
+            and all(r[2] == f"{cross}[i, j]" for r in rep)
     run.oblige("W3", "overwriteAdjacency", ok, sample={"where": f.where})
     if not ok:
         run.add("W3", "overwriteAdjacency/indices", f.where,
@@ -350,7 +369,7 @@ def w4(run: Run, prog: Program):
                 f"otherwise the model is directed or has self-loops")
 
 
-def w5_siblings(run: Run, prog: Program):
+def w5_siblings(run: Run, prog: Program, cy=None):
     """The three geographical rewiring wrappers build the kernel inputs alike."""
     sn = prog.classes["SpatialNetwork"]
     defs = {}
@@ -359,15 +378,19 @@ def w5_siblings(run: Run, prog: Program):
         m = sn.methods.get(name)
         if m is None:
             raise AnalysisError(f"SpatialNetwork.{name} vanished")
+        # the value of every kernel argument, by the kernel's parameter name,
+        # with intermediate locals inlined (their names are irrelevant)
         d = {}
-        for st in m.node.body:
-            if isinstance(st, ast.Assign) and isinstance(st.targets[0], ast.Name):
-                v = st.value
-                # int(x) wrappers are irrelevant
-                if isinstance(v, ast.Call) and isinstance(v.func, ast.Name) and \
-                        v.func.id == "int" and len(v.args) == 1:
-                    v = v.args[0]
-                d[st.targets[0].id] = ast.unparse(v)
+        kcalls = [c for c in ast.walk(m.node) if isinstance(c, ast.Call)
+                  and isinstance(c.func, ast.Name)
+                  and c.func.id.startswith("_randomly_rewire_geomodel")]
+        if len(kcalls) != 1:
+            raise AnalysisError(f"{m.where}: kernel call not found in {name}")
+        kf = cy.func(CORE, kcalls[0].func.id) if cy is not None else None
+        pnames = [n for n, t in kf.args] if kf is not None else []
+        for k, a_ in enumerate(kcalls[0].args):
+            label = pnames[k] if k < len(pnames) else f"arg{k}"
+            d[label] = ast.unparse(strip_int(inline_locals(m.node, a_)))
         defs[name] = (m, d)
     for var in ("E", "A", "D", "edges", "eps"):
         vals = {n: d.get(var) for n, (m, d) in defs.items()}
@@ -383,7 +406,8 @@ def w5_siblings(run: Run, prog: Program):
                         f"three")
     # the contract itself: E = number of links, edges = one row per link
     m, d = defs["randomly_rewire_geomodel_I"]
-    ok = d.get("E") == "self.n_links" and "graph.get_edgelist()" in (d.get("edges") or "")
+    ok = d.get("E") == f"{m.params[0]}.n_links" and \
+        "graph.get_edgelist()" in (d.get("edges") or "")
     run.oblige("W5", "contract", ok, sample=d)
     if not ok:
         run.add("W5", "SpatialNetwork.randomly_rewire_geomodel_I/contract", m.where,
@@ -404,23 +428,31 @@ def w6_order(run: Run, prog: Program):
         m = inw.methods.get(name)
         if m is None:
             raise AnalysisError(f"InteractingNetworks.{name} vanished")
+        lists = [p_ for p_ in m.params if "node_list" in p_ or p_.startswith("nodes")]
+        k = 0
         for st in m.node.body:
-            if isinstance(st, ast.Assign) and isinstance(st.targets[0], ast.Name) and \
-                    st.targets[0].id in ("nodes1", "nodes2"):
-                bad = [ast.unparse(c.func) for c in ast.walk(st.value)
-                       if isinstance(c, ast.Call) and ast.unparse(c.func) in ORDER_CHANGING]
-                lst = "node_list1" if st.targets[0].id == "nodes1" else "node_list2"
-                ok = not bad and lst in ast.unparse(st.value)
-                run.oblige("W6", f"{name}:{st.targets[0].id}", ok, sample={
-                    "where": f"{m.module.relpath}:{st.lineno}",
-                    "value": ast.unparse(st.value)})
-                if not ok:
-                    run.add("W6", f"InteractingNetworks.{name}/{st.targets[0].id}",
-                            f"{m.module.relpath}:{st.lineno}",
-                            f"{name}: `{st.targets[0].id} = {ast.unparse(st.value)}` "
-                            f"re-orders the group ({bad}); the cross adjacency and link "
-                            f"list are indexed in the caller's order, so the rewired "
-                            f"block is written back to the wrong nodes")
+            if not (isinstance(st, ast.Assign) and isinstance(st.targets[0], ast.Name)):
+                continue
+            used = [x.id for x in ast.walk(st.value) if isinstance(x, ast.Name)
+                    and x.id in lists]
+            if len(set(used)) != 1:
+                continue
+            # a node array derived from exactly one of the caller's lists
+            k += 1
+            role = f"group{lists.index(used[0]) + 1}"
+            bad = [ast.unparse(c.func) for c in ast.walk(st.value)
+                   if isinstance(c, ast.Call) and ast.unparse(c.func) in ORDER_CHANGING]
+            ok = not bad
+            run.oblige("W6", f"{name}:{role}@{k}", ok, sample={
+                "where": f"{m.module.relpath}:{st.lineno}",
+                "value": ast.unparse(st.value)})
+            if not ok:
+                run.add("W6", f"InteractingNetworks.{name}/{role}",
+                        f"{m.module.relpath}:{st.lineno}",
+                        f"{name}: `{st.targets[0].id} = {ast.unparse(st.value)}` "
+                        f"re-orders the group ({bad}); the cross adjacency and link "
+                        f"list are indexed in the caller's order, so the rewired "
+                        f"block is written back to the wrong nodes")
 
 
 def w7_ba(run: Run, prog: Program):
@@ -430,12 +462,17 @@ def w7_ba(run: Run, prog: Program):
     m = net.methods.get("BarabasiAlbert")
     if m is None:
         raise AnalysisError("Network.BarabasiAlbert vanished")
-    tests = [c for c in ast.walk(m.node) if isinstance(c, ast.Compare)
-             and isinstance(c.left, ast.Subscript)
-             and ast.unparse(c.left.value) == "last_child"]
-    sets = [s for s in ast.walk(m.node) if isinstance(s, ast.Assign)
-            and isinstance(s.targets[0], ast.Subscript)
-            and ast.unparse(s.targets[0].value) == "last_child"]
+    # the bookkeeping array is the one that is both tested (`arr[x] != v`) and
+    # updated (`arr[y] = w`) - whatever it is called
+    alltests = [c for c in ast.walk(m.node) if isinstance(c, ast.Compare)
+                and isinstance(c.left, ast.Subscript) and len(c.ops) == 1
+                and isinstance(c.left.value, ast.Name)]
+    allsets = [s for s in ast.walk(m.node) if isinstance(s, ast.Assign)
+               and isinstance(s.targets[0], ast.Subscript)
+               and isinstance(s.targets[0].value, ast.Name)]
+    arrs = {c.left.value.id for c in alltests} & {s.targets[0].value.id for s in allsets}
+    tests = [c for c in alltests if c.left.value.id in arrs]
+    sets = [s for s in allsets if s.targets[0].value.id in arrs]
     ok = len(tests) == 1 and len(sets) == 1 and \
         ast.unparse(tests[0].left.slice) == ast.unparse(sets[0].targets[0].slice) and \
         ast.unparse(tests[0].comparators[0]) == ast.unparse(sets[0].value) and \
@@ -476,6 +513,6 @@ def check(run: Run, prog: Program, cy: CyProgram, sites):
         ("_randomly_rewire_geomodel", "_randomlySetCrossLinks",
          "_randomlyRewireCrossLinks")))
     run.floor("W4 call sites", n, 5)
-    w5_siblings(run, prog)
+    w5_siblings(run, prog, cy)
     w6_order(run, prog)
     w7_ba(run, prog)
